@@ -107,7 +107,7 @@ def exhaustive_seq_block(tier, rng):
                     ops = ops + [["slice", 1, None, -1]]
                 cases.append(dict(gen="seq", p=dict(seq=base, name="s1", moltype="dna", offset=3, new=new, ops=ops), block="exhaustive"))
     if tier == "quick":
-        cases = cases[:: 9]
+        cases = cases[:: 12]
     return cases
 
 
@@ -645,23 +645,23 @@ def build_cases(tier, rng, widen=1):
     cases = [dict(gen="inventory", p={}, block="enum")]
     cases += exhaustive_seq_block(tier, rng)
     cases += exhaustive_aligned_block(tier)
-    cases += [rand_seq(rng) for _ in range(n(500, 8000))]
+    cases += [rand_seq(rng) for _ in range(n(350, 8000))]
     cases += [rand_view(rng) for _ in range(n(150, 2000))]
-    cases += [rand_aln(rng) for _ in range(n(300, 5000))]
-    cases += [rand_aligned(rng) for _ in range(n(200, 3000))]
-    cases += [rand_imap(rng) for _ in range(n(200, 3000))]
+    cases += [rand_aln(rng) for _ in range(n(220, 5000))]
+    cases += [rand_aligned(rng) for _ in range(n(150, 3000))]
+    cases += [rand_imap(rng) for _ in range(n(150, 3000))]
     cases += span_cases()
     # nodes created by an operation have no name: their edge attributes share the key None in the rich dict
     cases += [dict(gen="tree", p=dict(newick="((a:1,b:1,c:1)n1:2,d:2);", ops=[["bifurcating"]]), block="enum")]
-    cases += [rand_tree(rng) for _ in range(n(150, 2400))]
-    cases += [rand_table(rng) for _ in range(n(200, 3600))]
+    cases += [rand_tree(rng) for _ in range(n(120, 2400))]
+    cases += [rand_table(rng) for _ in range(n(150, 3600))]
     cases += [rand_darr(rng) for _ in range(n(150, 2400))]
     cases += alpha_cases(tier)
     cases += sm_cases(tier)
     cases += lf_cases(tier, rng)
     cases += result_cases(tier)
     cases += [rand_db(rng) for _ in range(n(60, 1200))]
-    cases += [rand_seq_db(rng) for _ in range(n(150, 2400))]
+    cases += [rand_seq_db(rng) for _ in range(n(100, 2400))]
     cases += misc_cases(rng, n(60, 800))
     return cases
 
@@ -862,11 +862,92 @@ def coq_cases(cases, impl):
             exp = [e["dict_map"], e["dict_seq"], e["dict_step"], e["dict_offset"],
                    [e["map_after"], [e["view_after"], e["parent_after"], None, e["pc_after"][1:]], e["str_after"] if wf_map(m) else None]]
             out.append((i, "aligned", f"CAligned {zlist(m[0])} {zlist(m[1])} {zlit(m[2])} {k} {cview(e['view'])} {zstr(e['parent'])}", exp))
+        elif g == "tree":
+            if not ascii_ok(e["newick"]):
+                continue
+            out.append((i, "tree", f"CTree {coq_tree(e['tree'])}", [e["newick"], e["attrs"], e["after"]]))
+        elif g == "table" and "rd" in e:
+            rd = e["rd"]
+            it = rd.get("init_table", {})
+            if not it or next(iter(it)) != "index_name" or not (it["index_name"] is None or isinstance(it["index_name"], str)):
+                continue
+            attrs = {k: v for k, v in it.items() if k != "index_name"}
+            data = rd["data"]
+            if set(data["order"]) != set(data["columns"]) or len(set(data["order"])) != len(data["order"]):
+                continue
+            cols = "[" + ";".join(f"({zstr(c)},{zstr(data['columns'][c]['dtype'])},[" + ";".join(coq_json(v) for v in data["columns"][c]["values"]) + "])"
+                                  for c in data["order"]) + "]"
+            ix = "None" if it["index_name"] is None else f"(Some {zstr(it['index_name'])})"
+            out.append((i, "table", f"CTable {ix} {coq_dict(attrs)} {cols}", [valform(rd), after_form(e["after"])]))
+        elif g == "darr" and "rd" in e:
+            rd = e["rd"]
+            names = "[" + ";".join("[" + ";".join(coq_json(v) for v in dim) + "]" for dim in rd["names"]) + "]"
+            out.append((i, "darr", f"CDarr {names} {coq_json(rd['array'])}", [valform(rd), after_form(e["after"])]))
+        elif g == "result" and "rd" in e:
+            con = e["rd"]["not_completed_construction"]
+            out.append((i, "nc", f"CNC [{';'.join(coq_json(v) for v in con['args'])}] {coq_dict(con['kwargs'])}", [valform(e["rd"]), after_form(e["after"])]))
         elif g == "imap":
             m = e["map"]
             exp = [e["dict_map"], e["dict_map"]]
             out.append((i, "imap", f"CImap {zlist(m[0])} {zlist(m[1])} {zlit(m[2])}", exp))
     return out
+
+
+def valform(x):
+    """the [val] image of a JSON value, as Model/SerialRun.v vjson prints it (objects and floats tagged)"""
+    if x is None or isinstance(x, (bool, str)):
+        return x
+    if isinstance(x, int):
+        return x
+    if isinstance(x, float):
+        return [{"exc": 1}, repr(x)]
+    if isinstance(x, list):
+        return [valform(v) for v in x]
+    if isinstance(x, dict):
+        return [{"exc": 0}, [[k, None if k == "version" else valform(v)] for k, v in x.items()]]
+    raise TypeError(type(x))
+
+
+def blank_versions(v):
+    """model output: the value of every "version" field is not compared"""
+    if isinstance(v, list):
+        if len(v) == 2 and v[0] == "version" and not isinstance(v[1], list):
+            return ["version", None]
+        return [blank_versions(x) for x in v]
+    return v
+
+
+def coq_json(x):
+    if x is None:
+        return "JNull"
+    if isinstance(x, bool):
+        return f"(JBool {cbool(x)})"
+    if isinstance(x, int):
+        return f"(JInt {zlit(x)})"
+    if isinstance(x, float):
+        return f"(JFloat {zstr(repr(x))})"
+    if isinstance(x, str):
+        return f"(JStr {zstr(x)})"
+    if isinstance(x, list):
+        return "(JArr [" + ";".join(coq_json(v) for v in x) + "])"
+    if isinstance(x, dict):
+        return "(JObj " + coq_dict(x) + ")"
+    raise TypeError(type(x))
+
+
+def coq_dict(d):
+    return "[" + ";".join(f"({zstr(k)},{coq_json(v)})" for k, v in d.items()) + "]"
+
+
+def coq_tree(t):
+    n, l, cs = t
+    return f"(Rose.Node {zstr(n)} {'None' if l is None else '(Some ' + zlit(l) + ')'} [" + ";".join(coq_tree(c) for c in cs) + "])"
+
+
+def after_form(after):
+    if isinstance(after, dict) and set(after) >= {"exc", "msg"} and "type" not in after:
+        return {"exc": after["exc"]}
+    return valform(after)
 
 
 def wf_map(m):
@@ -889,12 +970,14 @@ def match_model(kind, exp, got):
         if isinstance(x, list) and isinstance(y, list):
             return len(x) == len(y) and all(eq(a, b) for a, b in zip(x, y))
         return x == y
+    if kind in ("tree", "table", "darr", "nc"):
+        return exp == got          # strict: a JSON null is a value here, not a wildcard
     return eq(exp, got)
 
 
 def run_model(items):
     terms = [t for (_, _, t, _) in items]
-    return core.coq_eval(PROP, ["Model.View", "Model.Serial", "Model.SerialRun"], "run_case", terms, "case", shard=300)
+    return core.coq_eval(PROP, ["Model.View", "Model.Serial", "Model.SerialRun", "From CG3 Require Lib.Rose."], "run_case", terms, "case", shard=300)
 
 
 def registry_checks(rep, inv, stats):
@@ -979,7 +1062,7 @@ def run(tier: str, seed: int) -> int:
         got, model_ok = [], False
     nmodel = {}
     for (i, kind, term, exp), g in zip(items, got):
-        g = jsonable(g)
+        g = blank_versions(jsonable(g))
         stats["evals"] += 1
         nmodel[kind] = nmodel.get(kind, 0) + 1
         if not match_model(kind, exp, g):
@@ -1009,14 +1092,22 @@ def run(tier: str, seed: int) -> int:
              "encoder/decoder/dispatch; non-trivial = the object was put into a non-fresh state (>= 1 successful operation of its history, or "
              "non-default construction arguments) and at least one route was exercised. Exhaustive blocks: every bound class x step of one slice of a "
              "5-letter sequence with annotation offset, alone/after rc/before rc/followed by a reversing slice, both implementations; every gap layout "
-             "of length 4 x every slice [a:b] x rc for aligned rows (quick tier: every 9th / 4th). Random blocks: operation chains of depth 0-6.",
+             "of length 4 x every slice [a:b] x rc for aligned rows (quick tier: every 12th / 4th). Random blocks: operation chains of depth 0-6.",
         samples=[dict(case=cases[sample_i], impl=dict(cls=impl[sample_i].get("cls"), obs=impl[sample_i].get("obs"), enc=impl[sample_i].get("enc")))],
         input_distribution=dict(cases=len(cases), by_generator=by_gen, routes=stats["routes"], classes_exercised=seen, model_cases=nmodel,
                                 dispatch_types=stats.get("dispatch_types", 0)),
-        partial=["registered types without a theorem (decided by the real-code oracle only): Table, DictArray, DistanceMatrix, profiles, old/new alphabets, "
-                 "MolType, genetic codes, trees (newick JSON round trip is C09's), substitution models, likelihood functions, app results, NotCompleted, "
-                 "annotation dbs, FeatureMap, Span/LostSpan, new-style SequenceCollection/SeqsData, ArrayAlignment/SequenceCollection rows; pickle and deepcopy routes",
+        partial=["registered types without a theorem (decided by the real-code oracle only): DistanceMatrix, profiles, old/new alphabets, MolType, "
+                 "genetic codes, substitution models, likelihood functions, app results other than NotCompleted, annotation dbs, FeatureMap, Span/LostSpan, "
+                 "new-style SequenceCollection/SeqsData, ArrayAlignment/SequenceCollection rows; the pickle and deepcopy routes of every type; data-store "
+                 "members offer no to_rich_dict/to_json (their payload is one of the above)",
+                 "trees: the theorem holds under C09's name guard (root called 'root', other names distinct/parseable); only the 'length' edge attribute is "
+                 "modelled, other edge params are compared on the real code",
+                 "tables: the numpy cast of Columns.__setstate__ is modelled as the identity on what __getstate__ writes; text columns do not keep their "
+                 "dtype (table_text_dtype_refuted)",
                  "annotation-db payload inside sequence/alignment dicts is not modelled (compared on the real code)"],
+        types_with_theorem=["cogent3.core.sequence.{Sequence,DnaSequence,RnaSequence,...}", "cogent3.core.new_sequence.{Sequence,DnaSequence,RnaSequence}",
+                            "cogent3.core.sequence.SeqView", "cogent3.core.location.IndelMap", "cogent3.core.alignment.Aligned", "cogent3.core.alignment.Alignment",
+                            "cogent3.core.tree.PhyloNode", "cogent3.util.table.Table", "cogent3.util.dict_array.DictArray", "cogent3.app.composable.NotCompleted"],
         types_in_inventory=len(concrete), types_uncovered=uncovered, types_without_decoder=stats.get("types_without_decoder", []),
         generator_errors=len(stats["gen_errors"]), generator_error_samples=stats["gen_errors"][:3],
         model_impl_disagreements=len(disagreements), spec_violations=nvio, exhaustive=False,
